@@ -19,7 +19,7 @@ type UnaryCase struct {
 	ReqKind int    `json:"reqKind"` // 0 pointer, 1 nil, 2 string
 	ErrKind int    `json:"errKind"` // 0 nil, 1 plain error, 2 context error
 	HasDl   bool   `json:"hasDeadline"`
-	Nested  int    `json:"nested"` // 0 fresh context; 1 context received by the invoker of another intercepted unary call; 2 Context() of an intercepted stream
+	Nested  int    `json:"nested"` // 0 fresh context; 1 context received by the invoker of another intercepted unary call; 2 Context() of an intercepted stream; 3 while this call is in its invoker, a side call is made on a context derived from the invoker's context
 	Failure string `json:"failure,omitempty"`
 }
 
@@ -69,6 +69,21 @@ func RunUnary(c *UnaryCase) string {
 	var fail string
 	inv := func(ictx context.Context, method string, r, rep interface{}, cc *grpc.ClientConn, o ...grpc.CallOption) error {
 		calls++
+		if c.Nested == 3 {
+			// e.g. a credentials plugin or a tracing hook that issues its own RPC with the context it was handed: the
+			// picker information of THIS call must be what it was once the side call is over
+			sreq, srep := &msg{300}, &msg{301}
+			type sideKey struct{}
+			serr := grpcgcp.GCPUnaryClientInterceptor(context.WithValue(ictx, sideKey{}, 1), "/side", sreq, srep, nil, func(sctx context.Context, _ string, _, _ interface{}, _ *grpc.ClientConn, _ ...grpc.CallOption) error {
+				if gr, grep, ok := grpcgcp.VerifCtxMsgs(sctx); !ok || gr != interface{}(sreq) || grep != interface{}(srep) {
+					fail = fmt.Sprintf("side call: the picker sees req=%v reply=%v, want the side call's own objects", gr, grep)
+				}
+				return nil
+			})
+			if serr != nil {
+				fail = fmt.Sprintf("side call returned %v", serr)
+			}
+		}
 		if method != c.Method || r != req || rep != interface{}(reply) || cc != nil {
 			fail = fmt.Sprintf("invoker got method=%q req=%v reply=%v cc=%v", method, r, rep, cc)
 		}
@@ -84,7 +99,7 @@ func RunUnary(c *UnaryCase) string {
 		if ictx.Value(userKey{}) != "user-value" {
 			fail = "caller's context value lost"
 		}
-		if c.Nested != 0 {
+		if c.Nested != 0 && fail == "" {
 			gr, _, _ := grpcgcp.VerifCtxMsgs(ictx)
 			if gr != req {
 				fail = fmt.Sprintf("context derived from another intercepted call: the picker sees request %v of that call, not this call's %v", gr, req)
